@@ -408,6 +408,54 @@ func TestCheck(t *testing.T) {
 			expect(key, "ingest", m, false, "", "", "foreign-domain", fmt.Sprintf("it was sealed for domain %q", dom))
 		}
 	}
+	// the provider named is the signer's own peer ID under another multihash
+	// code (same digest bytes): a different identity, which no key owns
+	for _, kt := range kts {
+		signer := fixture.Key(kt, 0)
+		dm, err := multihash.Decode([]byte(signer.ID))
+		if err != nil {
+			panic(err)
+		}
+		for _, code := range []uint64{multihash.IDENTITY, multihash.SHA2_256, multihash.SHA1, multihash.SHA2_512, multihash.KECCAK_256, 0x55} {
+			if code == dm.Code {
+				continue
+			}
+			enc, err := multihash.Encode(dm.Digest, code)
+			if err != nil {
+				continue
+			}
+			relabelled, err := peer.IDFromBytes(enc)
+			if err != nil || relabelled == signer.ID {
+				continue
+			}
+			for _, rdr := range []string{"ingest", "register"} {
+				key := fmt.Sprintf("relabelled-id|%s|%s|code%x", rdr, kt, code)
+				if !r.Mine(key) {
+					continue
+				}
+				r.Eval(key, true)
+				var rec record.Record
+				if rdr == "ingest" {
+					rec = &model.IngestRequest{Multihash: fixture.Mh("c18-relabel", multihash.SHA2_256, -1), ProviderID: relabelled, ContextID: []byte("ctx"), Metadata: []byte("md"), Addrs: []string{"/ip4/1.2.3.4/tcp/9999"}, Seq: 1}
+				} else {
+					pr := peer.NewPeerRecord()
+					pr.PeerID = relabelled
+					pr.Addrs = []multiaddr.Multiaddr{multiaddr.StringCast("/ip4/1.2.3.4/tcp/9999")}
+					rec = pr
+				}
+				env, err := record.Seal(rec, signer.Priv)
+				if err != nil {
+					r.Outcome("relabelled-seal-refused")
+					continue
+				}
+				data, err := env.Marshal()
+				if err != nil {
+					continue
+				}
+				expect(key, rdr, data, false, "", "", "provider-id-is-the-signers-digest-under-another-hash-code", fmt.Sprintf("it names %s, which is the signer's digest under multihash code 0x%x, not the signer %s", relabelled, code, signer.ID))
+			}
+		}
+	}
 	// domain and payload type varied independently: a genuine request payload,
 	// sealed by the provider it names, for every combination of {right, other}
 	// domain x {right, other} payload type; only (right, right) may be accepted
